@@ -3,6 +3,7 @@ package main
 import (
 	"bytes"
 	"fmt"
+	"github.com/fxamacker/cbor/v2"
 	"reflect"
 
 	cose "github.com/veraison/go-cose"
@@ -104,6 +105,40 @@ func runC12(c *Collector, r *Rng, thorough bool) {
 		if err == nil {
 			if rerr := heRulesOnWire(out); rerr != nil {
 				c.Fail("C12/raw-unprotected-not-validated", "SignHashEnvelope produced an envelope violating the rules: "+rerr.Error()+" in "+hx(out), map[string]any{"op": trunc(op, 900)})
+			}
+		}
+	}
+	// digest length x hash algorithm, both directions, against the registered digest sizes (SHA-256: 32, SHA-384: 48,
+	// SHA-512: 64 octets)
+	for _, ha := range []struct {
+		alg  cose.Algorithm
+		size int
+	}{{cose.AlgorithmSHA256, 32}, {cose.AlgorithmSHA384, 48}, {cose.AlgorithmSHA512, 64}} {
+		for _, ln := range []int{0, 1, 31, 32, 33, 47, 48, 49, 63, 64, 65, 96, 128} {
+			hv := r.Bytes(ln)
+			sg := &spySigner{alg: -7, kind: SOk, sig: []byte{1, 2}}
+			h := cose.Headers{Protected: cose.ProtectedHeader{cose.HeaderLabelAlgorithm: cose.AlgorithmES256}}
+			op, obs, _, err, p := execSignHE(sg, h, cose.HashEnvelopePayload{HashAlgorithm: ha.alg, HashValue: hv})
+			rep := map[string]any{"hash_alg": int64(ha.alg), "digest_len": ln}
+			if p {
+				c.Fail("C12/panic", "SignHashEnvelope panicked", rep)
+				continue
+			}
+			addCase(c, "digest-size/sign", op, obs, true)
+			if (err == nil) != (ln == ha.size) {
+				c.Fail("C12/digest-size", fmt.Sprintf("SignHashEnvelope with %v and a %d-octet digest: err=%v; the digest size of that algorithm is %d", ha.alg, ln, err, ha.size), rep)
+			}
+			// the same envelope made by another implementation, offered to VerifyHashEnvelope
+			pm := wMap(-1, wInt(1, -1), wInt(-7, -1), wInt(258, -1), wInt(int64(ha.alg), -1))
+			env := wTag(18, -1, wArr(-1, wBstr(pm.Ser(), -1), wMap(-1), wBstr(hv, -1), wBstr([]byte{1, 2}, -1))).Ser()
+			vop, vobs, _, verr, vp := execVerifyHE(&spyVerifier{alg: -7}, env)
+			if vp {
+				c.Fail("C12/panic", "VerifyHashEnvelope panicked", rep)
+				continue
+			}
+			addCase(c, "digest-size/verify", vop, vobs, true)
+			if (verr == nil) != (ln == ha.size) {
+				c.Fail("C12/digest-size", fmt.Sprintf("VerifyHashEnvelope with %v and a %d-octet digest: err=%v; the digest size of that algorithm is %d", ha.alg, ln, verr, ha.size), rep)
 			}
 		}
 	}
@@ -310,8 +345,21 @@ func c13Values() []hvalue {
 		{"countersignature-list-empty", []*cose.Countersignature{}, wArr(-1)},
 		{"countersignature-list-nil", []*cose.Countersignature{nil}, wArr(-1, wNull())},
 		{"float", 1.5, wFloat64(1.5)},
+		// Go-only kinds: byte-slice-like types that are not []byte; what they put on the wire is not (always) a bstr
+		{"named-byte-slice", namedBytes{1, 2}, nil},
+		{"raw-cbor-uint", cbor.RawMessage{0x01}, nil},
+		{"raw-cbor-tstr", cbor.RawMessage{0x61, 0x61}, nil},
+		{"raw-cbor-bstr", cbor.RawMessage{0x41, 0x61}, nil},
+		{"cbor-bytestring", cbor.ByteString("ab"), nil},
+		{"byte-array", [2]byte{1, 2}, nil},
+		{"named-string", namedString("a/b"), nil},
+		{"named-int", namedInt(7), nil},
 	}
 }
+
+type namedBytes []byte
+type namedString string
+type namedInt int64
 
 func runC13(c *Collector, r *Rng, thorough bool) {
 	c.Rule = "exhaustive grid: 16 registered labels + 5 unknown labels (small/large/negative int, text) x 22 value kinds x {protected, unprotected} x {encode, decode} x 11 Go spellings of the label on the encode side (kid 4 always present so that crit can refer to it); all IV / Partial IV pairs within and across buckets at message level; crit x present-label combinations; the encode verdict, the decode verdict of the same header set, the verdict for every spelling and the Coq model must all agree; an accepted set must satisfy RFC 9052 3.1 by the harness's own checker; non-trivial = the rule switch was reached; distinct by op term"
@@ -367,7 +415,7 @@ func runC13(c *Collector, r *Rng, thorough bool) {
 					if si == 0 {
 						first = op
 					}
-					if err == nil && v.wire != nil {
+					if err == nil {
 						// whatever is produced must obey 3.1 (harness's own checker on the bytes)
 						kind := "DUnprot"
 						if protected {
@@ -534,6 +582,83 @@ func runC13(c *Collector, r *Rng, thorough bool) {
 			}
 			if (d.err != nil) != bad {
 				c.Fail("C13/iv-decode", fmt.Sprintf("IV/Partial IV combination %s in %s: decode refused=%v, expected refused=%v", iv.name, kind, d.err != nil, bad), map[string]any{"data": hx(t.Ser()), "kind": k})
+			}
+		}
+	}
+	// ---- one valid parameter of each rule kind next to one invalid entry, encoded and decoded repeatedly (Go visits
+	// the map in another order each time): the invalid entry is refused every time, whatever was visited before it ----
+	goodOnes := []struct {
+		name string
+		l    int64
+		v    any
+		w    *W
+		prot bool // protected bucket only
+	}{
+		{"alg", 1, cose.AlgorithmES256, wInt(-7, -1), false},
+		{"crit", 2, []any{int64(4)}, wArr(-1, wUint(4, -1)), true},
+		{"content-type", 3, "a/b", wTstr("a/b", -1), false},
+		{"iv", 5, []byte{1}, wBstr([]byte{1}, -1), false},
+		{"typ", 16, uint(7), wUint(7, -1), false},
+		{"x5t", 34, []any{int64(-16), []byte{1}}, wArr(-1, wInt(-16, -1), wBstr([]byte{1}, -1)), false},
+	}
+	badOnes := []struct {
+		name string
+		l    int64
+		v    any
+		w    *W
+	}{
+		{"kid-int", 4, int64(1), wUint(1, -1)},
+		{"partial-iv-text", 6, "x", wTstr("x", -1)},
+		{"typ-bool", 16, true, wBool(true)},
+		{"content-type-plain", 3, "plain", wTstr("plain", -1)},
+		{"alg-bstr", 1, []byte{1}, wBstr([]byte{1}, -1)},
+	}
+	for _, g := range goodOnes {
+		for _, b := range badOnes {
+			if g.l == b.l || (g.l == 5 && b.l == 6) {
+				continue
+			}
+			for _, protected := range []bool{true, false} {
+				if g.prot && !protected {
+					continue
+				}
+				m := map[any]any{g.l: g.v, b.l: b.v}
+				kv := []*W{wInt(g.l, -1), g.w.Clone(), wInt(b.l, -1), b.w.Clone()}
+				if b.l != 4 {
+					m[int64(4)] = []byte("kid")
+					kv = append(kv, wInt(4, -1), wBstr([]byte("kid"), -1))
+				}
+				data := wMap(-1, kv...).Ser()
+				if protected {
+					data = wBstr(data, -1).Ser()
+				}
+				accE, accD := 0, 0
+				for rep := 0; rep < 24; rep++ {
+					var err error
+					if protected {
+						_, err = cose.ProtectedHeader(m).MarshalCBOR()
+						if err == nil {
+							accE++
+						}
+						var ph cose.ProtectedHeader
+						if ph.UnmarshalCBOR(data) == nil {
+							accD++
+						}
+					} else {
+						_, err = cose.UnprotectedHeader(m).MarshalCBOR()
+						if err == nil {
+							accE++
+						}
+						var uh cose.UnprotectedHeader
+						if uh.UnmarshalCBOR(data) == nil {
+							accD++
+						}
+					}
+				}
+				c.Eval(fmt.Sprintf("valid-next-to-invalid/%s/%s/protected=%v", g.name, b.name, protected), hx(data), true)
+				if accE+accD > 0 {
+					c.Fail("C13/invalid-entry-accepted", fmt.Sprintf("a bucket with a valid %s and an invalid %s entry was accepted in %d of 24 encodings and %d of 24 decodings", g.name, b.name, accE, accD), map[string]any{"data": hx(data), "protected": protected})
+				}
 			}
 		}
 	}
